@@ -69,13 +69,28 @@ func resetTimers() { pending = nil }
 //
 //go:norace
 func fireDue() {
+	spawned := false
+	defer func() {
+		if spawned {
+			simrt.Pause() // let the timer functions run first, as a freshly woken goroutine usually does
+		}
+	}()
 	for len(pending) > 0 && pending[0].when <= nowNS {
 		t := pending[0]
 		pending = pending[1:]
 		t.live = false
 		t.fired = true
 		if t.fn != nil {
-			t.fn() // AfterFunc: run by whoever moved the clock
+			// AfterFunc: the runtime runs the function on a goroutine of its own. Inside a scheduled run it becomes
+			// a task (the caller may hold a lock the function needs); when the idle scheduler moved the clock there
+			// is no caller and it runs right here.
+			if simrt.Concurrent() || simrt.InRun() {
+				fn := t.fn
+				go simrt.GoRun(simrt.Spawn("time.AfterFunc"), fn)
+				spawned = true
+			} else {
+				t.fn()
+			}
 		} else {
 			select {
 			case t.c <- time.Unix(0, t.when).UTC():
@@ -109,8 +124,17 @@ func init() {
 	simrt.IdleHook = NextEvent
 }
 
+// deadline is now + d without wrapping around (a lifetime of MaxInt64 means "never", not "in the past").
+func deadline(d time.Duration) int64 {
+	now := NowNS()
+	if d > 0 && now+int64(d) < now {
+		return 1<<63 - 1
+	}
+	return now + int64(d)
+}
+
 func newTimer(d time.Duration, period time.Duration, fn func()) *Timer {
-	t := &Timer{c: make(chan time.Time, 1), when: NowNS() + int64(d), period: int64(period), fn: fn}
+	t := &Timer{c: make(chan time.Time, 1), when: deadline(d), period: int64(period), fn: fn}
 	t.C = t.c
 	addTimer(t)
 	fireDue()
@@ -146,7 +170,7 @@ func (t *Timer) Reset(d time.Duration) bool {
 		return t.real.Reset(d)
 	}
 	was := dropTimer(t)
-	t.when = NowNS() + int64(d)
+	t.when = deadline(d)
 	addTimer(t)
 	fireDue()
 	return was
@@ -186,6 +210,6 @@ func (k *Ticker) Reset(d time.Duration) {
 	}
 	dropTimer(k.t)
 	k.t.period = int64(d)
-	k.t.when = NowNS() + int64(d)
+	k.t.when = deadline(d)
 	addTimer(k.t)
 }
